@@ -70,6 +70,7 @@ type Addr struct {
 	path  []pathSel
 	T     types.Type // type of the addressed value
 	stT   types.Type // aObj: struct type
+	fieldInv string
 }
 
 type State struct {
@@ -380,7 +381,14 @@ func (vc *FnVC) newRef(hint string) string {
 
 // ---- type invariants assumed for values coming from outside (params, loads, call results) ----
 
-func (vc *FnVC) typeFacts(v Val) string {
+func (vc *FnVC) typeFacts(v Val) string { return vc.typeFactsIn(vc.st, v) }
+
+// typeFactsIn: facts that hold for any well-typed value present in state st (memory safety: references stored
+// anywhere at st were allocated before st).
+func (vc *FnVC) typeFactsIn(st *State, v Val) string {
+	save := vc.st
+	vc.st = st
+	defer func() { vc.st = save }()
 	if v.T == nil {
 		return "true"
 	}
@@ -401,6 +409,13 @@ func (vc *FnVC) typeFacts(v Val) string {
 		return f
 	case *types.Signature:
 		return sx("<=", sx("fn.env", v.S), vc.cur(vc.allocKey()))
+	case *types.Struct:
+		var fs []string
+		for i := 0; i < u.NumFields(); i++ {
+			ft := u.Field(i).Type()
+			fs = append(fs, vc.typeFactsIn(st, Val{sx(dtAcc(v.K, u.Field(i).Name()), v.S), ft, vc.sorts.sortOf(ft)}))
+		}
+		return sAnd(fs...)
 	}
 	return "true"
 }
@@ -622,6 +637,11 @@ func (vc *FnVC) loadIn(st *State, a *Addr) string {
 }
 
 func (vc *FnVC) store(a *Addr, v string) {
+	if a.kind != aLocal && a.T != nil {
+		if f := vc.regimeFacts(v, a.T, 0); f != "true" {
+			vc.assert("elem-invariant", "stored Element is non-nil", f)
+		}
+	}
 	switch a.kind {
 	case aObj:
 		s := a.stT.Underlying().(*types.Struct)
@@ -643,6 +663,9 @@ func (vc *FnVC) store(a *Addr, v string) {
 		vc.setLocal(a.alloc, vc.define(name, k, nv))
 	case aField, aBox:
 		vc.frameCheck(a.key, a.ref)
+		if a.kind == aField && a.fieldInv != "" && len(a.path) == 0 {
+			vc.assert("field-invariant", a.key+" stays non-nil", nonNilTerm(v, vc.sorts.sortOf(a.T)))
+		}
 		root := sSelect(vc.cur(a.key), a.ref)
 		nv := vc.updatePath(root, a.path, v)
 		vc.set(a.key, sStore(vc.cur(a.key), a.ref, nv))
@@ -724,4 +747,115 @@ func sortedKeys[M ~map[string]V, V any](m M) []string {
 	}
 	sort.Strings(ks)
 	return ks
+}
+
+// ---- heap type invariant for runtime.Element (DESIGN: "elem regime") ----
+// Every r.Element stored in the heap is a non-nil interface holding a non-nil pointer. Assumed at every heap load,
+// asserted at every heap store (so it holds inductively for all code under the sweep).
+
+func isRegimeIface(t types.Type) bool {
+	n, ok := t.(*types.Named)
+	if !ok {
+		if a, isAlias := t.(*types.Alias); isAlias {
+			return isRegimeIface(types.Unalias(a))
+		}
+		return false
+	}
+	if n.Obj().Pkg() == nil {
+		return false
+	}
+	return n.Obj().Pkg().Path() == "github.com/DemoHn/Zn/pkg/runtime" && n.Obj().Name() == "Element"
+}
+
+func (vc *FnVC) regimeFacts(term string, t types.Type, depth int) string {
+	if isRegimeIface(t) {
+		return sAnd(sNot(sEq(sx("if.tag", term), "0")), sNot(sEq(sx("if.ptr", term), "0")))
+	}
+	if depth > 2 {
+		return "true"
+	}
+	if st, ok := t.Underlying().(*types.Struct); ok {
+		k := vc.sorts.sortOf(t)
+		var fs []string
+		for i := 0; i < st.NumFields(); i++ {
+			fs = append(fs, vc.regimeFacts(sx(dtAcc(k, st.Field(i).Name()), term), st.Field(i).Type(), depth+1))
+		}
+		return sAnd(fs...)
+	}
+	return "true"
+}
+
+// zeroArray returns an SMT array term of sort (Array idx es) whose every element is the zero value of elem.
+// Constant arrays need a *value* argument in cvc5, so non-literal zero values use a declared constant with an axiom.
+func (vc *FnVC) zeroArray(idx Sort, es Sort, zero string) string {
+	if zero == "0" || zero == "false" || zero == "true" {
+		return "((as const (Array " + idx + " " + es + ")) " + zero + ")"
+	}
+	name := "zeroarr$" + sortKey(idx) + "$" + sortKey(es)
+	if !vc.declSeen[name] {
+		vc.declare(name, "(Array "+idx+" "+es+")")
+		vc.axioms = append(vc.axioms, fmt.Sprintf("(assert (forall ((i %s)) (! (= (select %s i) %s) :pattern ((select %s i)))))", idx, name, zero, name))
+	}
+	return name
+}
+
+// ---- field invariants (`fieldinv T.f nonnil`): assumed at every load of the field, asserted at every store ----
+
+func (vc *FnVC) fieldInvOf(stT types.Type, field int) string {
+	n, ok := stT.(*types.Named)
+	if !ok || n.Obj().Pkg() == nil {
+		return ""
+	}
+	st := stT.Underlying().(*types.Struct)
+	return vc.eng.specs.FieldInvs[n.Obj().Pkg().Name()+"."+n.Obj().Name()+"."+st.Field(field).Name()]
+}
+
+func nonNilTerm(term string, k Sort) string {
+	switch k {
+	case SInt:
+		return sNot(sEq(term, "0"))
+	case SFunc:
+		return sNot(sEq(sx("fn.id", term), "0"))
+	case SIface:
+		return sNot(sEq(sx("if.tag", term), "0"))
+	case SSlice:
+		return sNot(sEq(sx("sl.base", term), "0"))
+	}
+	return "true"
+}
+
+// ---- encapsulated object invariants (`typeinv T expr`) ----
+// Assumed for a *T obtained outside T's package (where T's unexported fields cannot be written), and for the
+// receiver at an interface dispatch boundary. Inside T's package contracts state the invariant explicitly.
+
+func (vc *FnVC) typeInvFor(t types.Type) (*Clause, *types.Named) {
+	pt, ok := t.Underlying().(*types.Pointer)
+	if !ok {
+		return nil, nil
+	}
+	n, ok := pt.Elem().(*types.Named)
+	if !ok || n.Obj().Pkg() == nil {
+		return nil, nil
+	}
+	c := vc.eng.specs.TypeInvs[n.Obj().Pkg().Name()+"."+n.Obj().Name()]
+	return c, n
+}
+
+func (vc *FnVC) assumeTypeInv(v Val, force bool) {
+	c, n := vc.typeInvFor(v.T)
+	if c == nil {
+		return
+	}
+	if !force && vc.eng.writesFieldsOf(vc.fn, n) {
+		return // inside the abstraction: the contract states the invariant explicitly
+	}
+	env := &SpecEnv{vc: vc, vars: map[string]Val{"self": v}, cur: vc.st, old: vc.st, pkg: n.Obj().Pkg(), witFn: vc.key}
+	t, err := vc.trySpec(func() string { return env.boolExpr(c.Expr) })
+	if err != "" {
+		vc.specErrs = append(vc.specErrs, "typeinv "+n.Obj().Name()+": "+err)
+		return
+	}
+	vc.flushSide(env)
+	vc.assume(sImp(sNot(sEq(v.S, "0")), t))
+	vc.trustedUsed["object invariant of "+n.Obj().Name()+" assumed in functions that never write its fields (encapsulation argument, DESIGN §2.3)"] = true
 }
